@@ -9,7 +9,7 @@ PROP = "C16"
 PROOF_MODULES = ["Abverif.Proofs.C16", "Abverif.Proofs.Lemmas.HeaderTable", "Abverif.Proofs.C02", "Abverif.Proofs.Lemmas.WsFrame", "Abverif.Proofs.Lemmas.WsExt", "Abverif.Proofs.Lemmas.WsSeg", "Abverif.Proofs.Lemmas.WsSeg2", "Abverif.Proofs.Lemmas.WsData", "Abverif.Proofs.WsSegmentation", "Abverif.Proofs.Lemmas.WsJudge", "Abverif.Proofs.Lemmas.WsJudge2", "Abverif.Proofs.WsRefinement", "Abverif.Proofs.C01", "Abverif.Proofs.C15", "Abverif.Proofs.Lemmas.WsEncode", "Abverif.Proofs.WsRoundtrip", "Abverif.Proofs.WsJudgeProps"]
 MANIFEST_ENTRY = {
     "technique": 'Lean 4 theorems about the limit checks (at-header failure, send refusal writes nothing, transparency below the limit) + correspondence with header-only delivery + zlib-peer oracle for the decompression cap',
-    "text": 'Proved on the model: an over-limit sendMessage raises and changes nothing else; the receive limits are evaluated in onMessageFrameBegin on the declared length, i.e. at the header and before any payload octet of that frame is buffered, failing with 1009 per fail policy; within limits the check is pure bookkeeping; after a failure nothing is buffered or delivered; delivered_message_within_limit (Proofs/WsJudgeProps.lean): for every octet stream in every segmentation fed to a fresh endpoint (failByDrop), no delivered message is longer than maxMessagePayloadSize - a corollary of recv_refines_judge and the judge invariant (declared lengths summed, 1009 as soon as the sum crosses the limit). Tied to the code by per-read comparison incl. header-only delivery (payload withheld) and by the Spec judge (1009 exactly when a declared length crosses a limit). The decompression cap and refused compressed sends are outside the Ws model (the codec is not modelled there): implementation-level oracle with an independent zlib peer - an over-cap compressed message (one frame or fragmented, delivered whole or in small reads, compressible or not) is never delivered whole, truncated or altered, the connection is failed with 1009 per fail policy and nothing escapes dataReceived, messages within the cap and their successors arrive intact; a refused compressed send writes nothing and later messages inflate at the peer (C12 lossless_with_send_limit proves the latter on the codec-contract model). The three defects found here (truncation, corrupted successor, desynchronised compressor) were repaired in /repo (b798f81c, 93aa9965).',
+    "text": 'Proved on the model: an over-limit sendMessage raises and changes nothing else; the receive limits are evaluated in onMessageFrameBegin on the declared length, i.e. at the header and before any payload octet of that frame is buffered, failing with 1009 per fail policy; within limits the check is pure bookkeeping; after a failure nothing is buffered or delivered; delivered_message_within_limit (Proofs/WsJudgeProps.lean): for every octet stream in every segmentation fed to a fresh endpoint (failByDrop), no delivered message is longer than maxMessagePayloadSize - a corollary of recv_refines_judge and the judge invariant (declared lengths summed, 1009 as soon as the sum crosses the limit). Tied to the code by per-read comparison incl. header-only delivery (payload withheld) and by the Spec judge (1009 exactly when a declared length crosses a limit). The decompression cap and refused compressed sends are outside the Ws model (the codec is not modelled there): implementation-level oracle with an independent zlib peer - an over-cap compressed message (one frame or fragmented, delivered whole or in small reads, compressible or not) is never delivered whole, truncated or altered, the connection is failed with 1009 per fail policy and nothing escapes dataReceived, messages within the cap and their successors arrive intact; a refused compressed send writes nothing and later messages inflate at the peer (C12 lossless_with_send_limit proves the latter on the codec-contract model). The three defects found here (truncation, corrupted successor, desynchronised compressor) were repaired in /repo (b798f81c, 93aa9965). The send-side theorem and refusal are about sendMessage: sendPreparedMessage and the frame/streaming API never look at maxMessagePayloadSize - two open findings (over-limit-send-not-refused:prepared / :streaming), reproduced in every run.',
     "note": 'Trusted: Lean kernel; model tied by differential execution; limits are in declared (wire) payload octets; zlib.',
 }
 TRUSTED = [
@@ -193,6 +193,24 @@ def run(ctx):
                     add("within-limit-send-refused", f"{fw}: sendMessage of {n} octets with limit {lim}: {first[:3]}", rep)
             if not any(i.startswith("w:") for i in per[1][0]):
                 add("send-after-refusal-broken", f"{fw}: a normal message after the refused one was not written: {per[1][0][:3]}", rep)
+    # the other send APIs: the property says an over-limit message is refused locally whichever way it is sent
+    osc = []
+    for srv in (0, 1):
+        for n in (5, 20):
+            osc.append(({"cfg": {"srv": srv, "mm": 10}, "start": "open", "ops": [f"prep,{wsgen.hx(bytes(n))},1", "msg,-,1,n,0"]}, "prepared", n))
+            osc.append(({"cfg": {"srv": srv, "mm": 10}, "start": "open", "ops": ["bm,1", f"mf,{wsgen.hx(bytes(n))},0", "em"]}, "streaming", n))
+    for fw in ("twisted", "asyncio"):
+        impl = wsrun.run_impl([x[0] for x in osc], fw, nproc=4)
+        model = wsrun.run_model(ctx.driver, [x[0] for x in osc], fw)
+        res.evaluations += len(osc)
+        res.count(f"send-other-api:{fw}", len(osc))
+        for (sc, api, n), a, b in zip(osc, impl, model):
+            if a != b:
+                fd = wsrun.first_diff(a, b) if not a.startswith("ERROR") else (0, a[:300], "")
+                res.correspondence_breaks.append({"stream": f"ws.run send-limit-other-api/{fw}", "script": sc, "op": fd[0], "impl": fd[1][:400], "model": fd[2][:400]})
+            wrote = sum(len(wsoracle.unhex(i[2:])) for items, _ in (wsrun.parse_line(a) if not a.startswith("ERROR") else []) for i in items if i.startswith("w:"))
+            if n > 10 and wrote > 6:
+                add(f"over-limit-send-not-refused:{api}", f"{fw}: a {n}-octet message sent through the {api} API with maxMessagePayloadSize=10 was written ({wrote} octets), not refused", {"script": sc, "fw": fw, "impl": a[:600]})
     ctx.log("send part done")
     # compression part
     for fw in ("twisted", "asyncio"):
